@@ -163,6 +163,32 @@ fn observe<'a, T>(
     }
 }
 
+/// State accessors of the accumulator: the cfg(postcard_verif) hook in /repo. If the hooked build
+/// of postcard fails (a change to the accumulator's private fields that the hook does not survive),
+/// `./check` rebuilds with `--cfg pcsim_nohook`: the state clauses are then switched off (loudly)
+/// and everything that does not need them still runs.
+#[cfg(not(pcsim_nohook))]
+pub const HOOK: bool = true;
+#[cfg(pcsim_nohook)]
+pub const HOOK: bool = false;
+
+#[cfg(not(pcsim_nohook))]
+fn hook_idx<const N: usize>(acc: &CobsAccumulator<N>) -> usize {
+    acc.verif_idx()
+}
+#[cfg(not(pcsim_nohook))]
+fn hook_buffered<const N: usize>(acc: &CobsAccumulator<N>) -> Vec<u8> {
+    acc.verif_buffered().to_vec()
+}
+#[cfg(pcsim_nohook)]
+fn hook_idx<const N: usize>(_acc: &CobsAccumulator<N>) -> usize {
+    0
+}
+#[cfg(pcsim_nohook)]
+fn hook_buffered<const N: usize>(_acc: &CobsAccumulator<N>) -> Vec<u8> {
+    Vec::new()
+}
+
 /// One real feed call. `Err(msg)` = the call panicked.
 fn feed_once<const N: usize>(
     acc: &mut CobsAccumulator<N>,
@@ -204,8 +230,8 @@ fn feed_once<const N: usize>(
         data,
         rem,
         suffix,
-        idx_after: acc.verif_idx(),
-        buffered_after: acc.verif_buffered().to_vec(),
+        idx_after: hook_idx(acc),
+        buffered_after: hook_buffered(acc),
         borrows_ok,
         nborrows: borrows.len(),
     })
@@ -462,7 +488,7 @@ fn c08_history<const N: usize>(
                     "borrowed data of the value delivered at pos {pos} does not live (intact) in the accumulator's own buffer"
                 );
             }
-            if call.buffered_after != pending || call.idx_after != pending.len() {
+            if HOOK && (call.buffered_after != pending || call.idx_after != pending.len()) {
                 fail!(
                     "state",
                     "after feed at pos {pos} the accumulator buffers {} bytes [{}] (idx {}), the model {} bytes [{}]",
@@ -549,11 +575,11 @@ fn c08_history<const N: usize>(
     if results != zeros {
         fail!("count", "{results} results reported for {zeros} zero bytes in the stream");
     }
-    if acc.verif_buffered() != &t.tail[..] {
+    if HOOK && hook_buffered(&acc) != t.tail {
         fail!(
             "state",
             "at end of stream the accumulator buffers [{}], the unterminated tail is [{}]",
-            hex(acc.verif_buffered()),
+            hex(&hook_buffered(&acc)),
             hex(&t.tail)
         );
     }
@@ -1468,7 +1494,7 @@ fn c09_history<const N: usize>(
                 )
             });
             ncalls += 1;
-            if call.idx_after > N {
+            if HOOK && call.idx_after > N {
                 fail!("never-panics", "fill level {} exceeds the capacity {N} after feed at pos {pos}", call.idx_after);
             }
             if !call.suffix {
@@ -1482,7 +1508,7 @@ fn c09_history<const N: usize>(
             let consumed = call.window - call.rem;
             out.bytes += consumed as u64;
             let consumed_has_zero = window[..consumed].contains(&0);
-            if consumed_has_zero && call.idx_after != 0 {
+            if HOOK && consumed_has_zero && call.idx_after != 0 {
                 fail!(
                     "initial-state-after-zero",
                     "feed at pos {pos} consumed a zero byte but the accumulator still buffers {} bytes [{}]",
